@@ -554,6 +554,49 @@ def c_transform(case, ctx):
     ctx.nontrivial(not close(w_keep, v, rtol=0, atol=1e-9))
 
 
+# ------------------------------------------------------------------------------------------ non-square Homogeneous
+@st.composite
+def s_nonsquare(draw):
+    d_in, d_out = draw(st.sampled_from([(3, 2), (2, 3), (3, 1), (2, 1), (1, 2), (4, 3)]))
+    rows, cols = d_out + 1, d_in + 1
+    m = draw(st.lists(st.lists(gen.q(-4, 4), min_size=cols, max_size=cols), min_size=rows, max_size=rows))
+    m[-1] = [0.0] * d_in + [1.0]
+    w = draw(st.lists(gen.q(-4, 4), min_size=rows * cols, max_size=rows * cols))
+    return {"m": m, "w": w, "x": draw(st.lists(gen.vec(d_in, -5, 5), min_size=1, max_size=4))}
+
+
+def c_nonsquare(case, ctx):
+    """A plain Homogeneous may hold a non-square matrix (a map between spaces of different dimension); it is
+    vectorizable like any other: as_vector() has exactly n_parameters numbers and the round trips hold."""
+    from menpo.transform import Homogeneous
+
+    m = np.array(case["m"], dtype=float)
+    o = Homogeneous(m.copy())
+    ctx.event("matrix shape=%dx%d" % m.shape)
+    ctx.nontrivial(True)
+    d0 = rs.ndigest(o)
+    v = o.as_vector()
+    ctx.expect(isinstance(v, np.ndarray) and v.ndim == 1, "nonsquare.as_vector.not_1d", repr(getattr(v, "shape", None)))
+    ctx.expect(v.shape == (o.n_parameters,), "nonsquare.as_vector.shape_vs_n_parameters",
+               lambda: "as_vector() has shape %r, n_parameters = %r for a %dx%d matrix" % (v.shape, o.n_parameters, m.shape[0], m.shape[1]))
+    ctx.expect(not v.flags.writeable, "nonsquare.as_vector.writeable", "")
+    dd = rs.ndiff(d0, rs.ndigest(o))
+    ctx.expect(dd is None, "nonsquare.as_vector.mutated_owner", lambda: repr(dd))
+    o2 = o.from_vector(v)
+    ctx.expect(type(o2) is Homogeneous and np.array_equal(o2.h_matrix, m), "nonsquare.roundtrip.h_matrix", lambda: describe(o2.h_matrix, m))
+    w = np.array(case["w"], dtype=float)
+    o3 = o.from_vector(w.copy())
+    v3 = o3.as_vector()
+    ctx.expect(v3.shape == w.shape and np.array_equal(v3, w), "nonsquare.from_vector_then_as_vector", lambda: describe(v3, w))
+    dd = rs.ndiff(d0, rs.ndigest(o))
+    ctx.expect(dd is None, "nonsquare.from_vector.receiver_changed", lambda: repr(dd))
+    x = np.array(case["x"], dtype=float)
+    got = o.apply(x)
+    hx = np.hstack([x, np.ones((x.shape[0], 1))]).dot(m.T)
+    want = hx[:, :-1] / hx[:, -1:]
+    ctx.expect(close(got, want, rtol=0, atol=1e-9 * (1 + np.abs(want).max())), "nonsquare.apply", lambda: describe(got, want))
+
+
 CLAUSES = [
     Clause("shape", c_shape, s_shape, quick=2200, thorough=60000, nt_floor=0.4,
            rule="8 shape classes x landmarks x vector; non-trivial: structured or landmarked shape and a new vector"),
@@ -561,4 +604,6 @@ CLAUSES = [
            rule="Image / MaskedImage / BooleanImage, 2-D and 3-D, masks; non-trivial: landmarks, partial mask or >1 channel, and a new vector"),
     Clause("transform", c_transform, s_transform, quick=2500, thorough=60000, nt_floor=0.4,
            rule="12 homogeneous-family classes x {2-D, 3-D}; non-trivial: vectorizable in that dimension and a new vector"),
+    Clause("nonsquare", c_nonsquare, s_nonsquare, quick=300, thorough=6000, nt_floor=0.5,
+           rule="plain Homogeneous holding a non-square matrix (3-D->2-D, 2-D->3-D, ...): vector length = n_parameters, round trips"),
 ]
